@@ -56,6 +56,7 @@ pub struct PointCloudWriter<'a, T: Read + Write + Seek> {
     temperature: Option<f64>,
     humidity: Option<f64>,
     atmospheric_pressure: Option<f64>,
+    finalized: bool,
 }
 
 impl<'a, T: Read + Write + Seek> PointCloudWriter<'a, T> {
@@ -171,6 +172,7 @@ impl<'a, T: Read + Write + Seek> PointCloudWriter<'a, T> {
             temperature: None,
             humidity: None,
             atmospheric_pressure: None,
+            finalized: false,
         })
     }
 
@@ -436,6 +438,9 @@ impl<'a, T: Read + Write + Seek> PointCloudWriter<'a, T> {
 
     /// Adds a new point to the point cloud.
     pub fn add_point(&mut self, values: RawValues) -> Result<()> {
+        if self.finalized {
+            Error::invalid("The point cloud was already finalized")?
+        }
         if values.len() != self.prototype.len() {
             Error::invalid("Number of values does not match prototype length")?
         }
@@ -563,6 +568,11 @@ impl<'a, T: Read + Write + Seek> PointCloudWriter<'a, T> {
 
     /// Called after all points have been added to finalize the creation of the new point cloud.
     pub fn finalize(&mut self) -> Result<()> {
+        // A second call would add the same point cloud once more
+        if self.finalized {
+            Error::invalid("The point cloud was already finalized")?
+        }
+
         // Flush remaining points from buffer into byte streams and write them
         while !self.buffer.is_empty() {
             self.write_buffer_to_disk(false)?;
@@ -615,6 +625,7 @@ impl<'a, T: Read + Write + Seek> PointCloudWriter<'a, T> {
 
         // Add metadata for XML generation later, when the file is completed.
         self.pointclouds.push(pc);
+        self.finalized = true;
 
         Ok(())
     }
